@@ -4,12 +4,14 @@ import (
 	"bytes"
 	"encoding/json"
 	"fmt"
+	"io"
 	"os"
 	"os/exec"
 	"path/filepath"
 	"sort"
 	"strconv"
 	"strings"
+	"syscall"
 	"testing"
 	"time"
 
@@ -63,9 +65,11 @@ type tcase struct {
 	Symlinks bool              `json:"scripts_are_symlinks,omitempty"`
 	// TZ is the zone of the binary's process ("" = UTC); WsDir names the workspace directory ("" = "ws"), Decoys are
 	// sibling directories of the workspace holding scripts of their own
-	TZ     string   `json:"process_zone,omitempty"`
-	WsDir  string   `json:"workspace_directory,omitempty"`
-	Decoys []string `json:"sibling_directories,omitempty"`
+	// InputVia: how the input reaches the binary: "" = a regular file, "stdin" = -i /dev/stdin, "fifo" = a named pipe
+	InputVia string   `json:"input_via,omitempty"`
+	TZ       string   `json:"process_zone,omitempty"`
+	WsDir    string   `json:"workspace_directory,omitempty"`
+	Decoys   []string `json:"sibling_directories,omitempty"`
 }
 
 type libOut struct {
@@ -196,9 +200,40 @@ func runBinary(c *tcase) (stdout string, before, after time.Time, err error) {
 	default:
 		args = append(args, "-s", filepath.Join(wsName, c.Name), "-w", "")
 	}
+	var stdin io.Reader
 	if c.Input != "none" {
 		in := filepath.Join(dir, "input.dat")
-		_ = os.WriteFile(in, []byte(c.Data), 0o644)
+		switch c.InputVia {
+		case "stdin":
+			in = "/dev/stdin"
+			stdin = strings.NewReader(c.Data)
+		case "fifo":
+			in = filepath.Join(dir, "input.fifo")
+			if err := syscall.Mkfifo(in, 0o644); err != nil {
+				return "", before, after, err
+			}
+			go func(path, data string) {
+				// the writer side of the pipe: opens once the binary has opened it for reading (non-blocking attempts,
+				// given up when the pipe is gone: the binary may finish without ever opening its input)
+				for i := 0; i < 12000; i++ {
+					fd, err := syscall.Open(path, syscall.O_WRONLY|syscall.O_NONBLOCK, 0)
+					if err == syscall.ENXIO {
+						time.Sleep(5 * time.Millisecond)
+						continue
+					}
+					if err != nil {
+						return
+					}
+					_ = syscall.SetNonblock(fd, false)
+					f := os.NewFile(uintptr(fd), path)
+					_, _ = f.WriteString(data)
+					_ = f.Close()
+					return
+				}
+			}(in, c.Data)
+		default:
+			_ = os.WriteFile(in, []byte(c.Data), 0o644)
+		}
 		args = append(args, "-i", in, "-t", c.Input)
 	}
 	args = append(args, "--output-type", c.Format)
@@ -212,6 +247,9 @@ func runBinary(c *tcase) (stdout string, before, after time.Time, err error) {
 	var buf bytes.Buffer
 	cmd.Stdout = &buf
 	cmd.Stderr = &buf
+	if stdin != nil {
+		cmd.Stdin = stdin
+	}
 	before = time.Now()
 	done := make(chan error, 1)
 	if err := cmd.Start(); err != nil {
@@ -588,6 +626,12 @@ func genCase(t *rapid.T) (*tcase, bool, []string) {
 		}
 	}
 	c.Format = rapid.SampledFrom([]string{"json", "lineprotocol"}).Draw(t, "format")
+	// the input reaches the binary through something that is not a regular file
+	if c.Input != "none" && rapid.IntRange(0, 4).Draw(t, "via") == 0 {
+		c.InputVia = rapid.SampledFrom([]string{"stdin", "fifo"}).Draw(t, "inputvia")
+		labels = append(labels, "input/via-"+c.InputVia)
+		nontrivial = true
+	}
 	// the workspace directory's own name: blanks, brackets and other characters that mean something to a pattern matcher
 	if rapid.IntRange(0, 2).Draw(t, "wsdir") == 0 {
 		c.WsDir = rapid.SampledFrom([]string{"ws[1]", "ws[x", "ws\\1", "w s", "ws*", "ws?", "{ws}", "ws]", "wé", "ws[a-z]", "%ws", "ws.p"}).Draw(t, "wsname")
@@ -630,6 +674,10 @@ func TestFixedCases(t *testing.T) {
 		{Scripts: map[string]string{"s.p": "add_key(a, 1)"}, Name: "s.p", Mode: "file-path", Input: "text", Data: "hello", Format: "json"},
 		{Scripts: map[string]string{"s.p": "add_key(a, 1)"}, Name: "s.p", Mode: "file-path", Input: "none", Format: "json"},
 		{Scripts: map[string]string{"s.p": "nosuch()"}, Name: "s.p", Mode: "file-path", Input: "none", Format: "json"},
+		// long runs: a few hundred thousand, and well over a million, statements before the effects that show in the output
+		{Scripts: map[string]string{"s.p": "n = 0\nfor i = 0; i < 600000; i = i + 1 {\n  n = n + 1\n}\nadd_key(n, n)\nset_measurement(\"done\")"}, Name: "s.p", Mode: "file-path", Input: "lineprotocol", Data: lpInputs[0], Format: "lineprotocol"},
+		{Scripts: map[string]string{"s.p": "n = 0\nfor i = 0; i < 300000; i = i + 1 {\n  n = n + 1\n}\nuse(\"lib.p\")\nadd_key(n, n)\nset_tag(finished, \"yes\")", "lib.p": "m = 0\nfor x in [1, 2, 3] {\n  for j = 0; j < 120000; j = j + 1 {\n    m = m + 1\n  }\n}\nadd_key(m, m)"}, Name: "s.p", Mode: "workspace", Input: "text", Data: "hello", Format: "json"},
+		{Scripts: map[string]string{"s.p": "n = 0\nfor i = 0; i < 2100000; i = i + 1 {\n  n = n + 1\n}\nadd_key(n, n)"}, Name: "s.p", Mode: "file-bare", Input: "text", Data: "x", Format: "json"},
 	}
 	for _, c := range cases {
 		judge(t, "fixed", c, true, "fixed")
